@@ -81,8 +81,62 @@ def _validate(vh, cases, selftest=True):
                 "sample": trace[1] if len(trace) > 1 else None, "selftest": bool(selfline)}
 
 
+def _random(vh, job):
+    """A random sequence of calls on an evolving database over a schema of the transaction family."""
+    with Scratch("apirnd") as sc:
+        copy_spec(sc.dir, API_FILES)
+        rc, o, e = run([vh, "schema", "-schema", job["schema"], "-seed", str(job["schema_seed"]), "-o", sc.path("schema.abs.json")])
+        if rc != 0:
+            raise Broken("vh schema failed: " + e[-2000:])
+        rc, o, e = run([vh, "api-random", "-schema", job["schema"], "-schema-seed", str(job["schema_seed"]), "-seed", str(job["seed"]),
+                        "-n", str(job["n"]), "-o", sc.path("trace.ndjson")], timeout=3000)
+        if rc != 0:
+            raise Broken("vh api-random failed (%s): %s" % (job, e[-3000:]))
+        trace = [json.loads(l) for l in open(sc.path("trace.ndjson")) if l.strip()]
+        open(sc.path("T.cfg"), "w").write("SPECIFICATION SpecApi\nCHECK_DEADLOCK FALSE\n")
+        rc, out, wall = run_tlc(sc.dir, "TraceApi.tla", cfg="T.cfg", workers=1, timeout=3000)
+        done = tlc_prints(out, "TRACE-COMPLETE")
+        if rc != 0 or not done:
+            raise Broken("TraceApi validation (random calls) did not complete:\n" + out[-3000:])
+        mm = tlc_prints(out, "MISMATCH")
+        gen, dist = tlc_stats(out)
+        cases = []
+        for m in mm:
+            ev = trace[m["line"] - 1]
+            # to confirm: the database the call was made on, loaded into a fresh one, and the call
+            before = next((trace[j]["post"] for j in range(m["line"] - 2, -1, -1) if "post" in trace[j]), {})
+            cases.append({"mismatch": m, "api_random": {"schema": job["schema"], "schema_seed": job["schema_seed"], "db": before, "call": ev.get("call")},
+                          "key": {"call": ev.get("call")}})
+        calls = [ev for ev in trace if ev["ev"] == "apitxn"]
+        return {"events": len(trace), "states": dist, "transitions": gen, "cases": cases, "calls": len(calls),
+                "kinds": {k: sum(1 for c in calls if c["call"]["kind"] == k) for k in ("create", "update", "mutate", "delete", "wait")},
+                "committed": sum(1 for c in calls if not c["apiErr"] and c["committed"] and c["nops"] > 0),
+                "refused": sum(1 for c in calls if c["apiErr"])}
+
+
+def _replay_random(vh, r):
+    with Scratch("apirep") as sc:
+        copy_spec(sc.dir, API_FILES)
+        rc, o, e = run([vh, "schema", "-schema", r["schema"], "-seed", str(r["schema_seed"]), "-o", sc.path("schema.abs.json")])
+        if rc != 0:
+            raise Broken("vh schema failed: " + e[-2000:])
+        json.dump({"db": r["db"], "call": r["call"]}, open(sc.path("case.json"), "w"))
+        rc, o, e = run([vh, "api-random", "-schema", r["schema"], "-schema-seed", str(r["schema_seed"]), "-replay", sc.path("case.json"),
+                        "-o", sc.path("trace.ndjson")], timeout=600)
+        if rc != 0:
+            raise Broken("vh api-random -replay failed: " + e[-3000:])
+        open(sc.path("T.cfg"), "w").write("SPECIFICATION SpecApi\nCHECK_DEADLOCK FALSE\n")
+        rc, out, wall = run_tlc(sc.dir, "TraceApi.tla", cfg="T.cfg", workers=1, timeout=900)
+        if rc != 0 or not tlc_prints(out, "TRACE-COMPLETE"):
+            raise Broken("TraceApi validation (replay) did not complete:\n" + out[-3000:])
+        return tlc_prints(out, "MISMATCH")
+
+
 def confirm_fn(vh):
     def confirm(case):
+        if "api_random" in case:
+            got = [m for m in _replay_random(vh, case["api_random"]) if m["what"] == case["mismatch"]["what"]]
+            return got, None
         r = _validate(vh, [case["api_case"]], selftest=False)
         got = [c["mismatch"] for c in r["cases"] if c["mismatch"]["what"] == case["mismatch"]["what"]]
         return got, None
@@ -98,8 +152,25 @@ def run_for(prop, tier, vh):
         cases = [c for c in cases if uses_names(c["call"])]
     nsh = min(NCPU, max(1, len(cases) // 100))
     res = pmap(lambda sh: _validate(vh, sh), [cases[i::nsh] for i in range(nsh)])
+    # random calls on the schemas of the transaction family
+    sd = seed()
+    n = 150 if tier == "quick" else 600
+    jobs = [dict(schema="small", schema_seed=1, seed=sd * 100 + 1, n=n), dict(schema="kitchen", schema_seed=1, seed=sd * 100 + 2, n=n)]
+    for k in range(4 if tier == "quick" else 12):
+        jobs.append(dict(schema="random", schema_seed=sd * 37 + k, seed=sd * 100 + 10 + k, n=n))
+    rres = pmap(lambda j: _random(vh, j), jobs)
     tags = {"C03": {"C03"}, "C08": {"C08"}, "C15": {"C02", "C03", "C04", "C06"}}[prop]
     mine, other = [], 0
+    for r in rres:
+        for c in r["cases"]:
+            if c["mismatch"].get("prop") in tags and (prop != "C15" or uses_names(c["key"]["call"])):
+                mine.append(c)
+            else:
+                other += 1
+    cov.update({"api_random_calls": sum(r["calls"] for r in rres), "api_random_committed": sum(r["committed"] for r in rres),
+                "api_random_refused": sum(r["refused"] for r in rres), "api_random_traces": len(rres),
+                "api_random_kinds": {k: sum(r["kinds"][k] for r in rres) for k in ("create", "update", "mutate", "delete", "wait")},
+                "api_random_states": sum(r["states"] for r in rres)})
     for r in res:
         for c in r["cases"]:
             if c["mismatch"].get("prop") in tags:
